@@ -263,7 +263,7 @@ SUBSETS = [s for n in (1, 2, 3) for s in itertools.combinations(("dr", "rd", "rr
 
 def harnesses(tier):
     hs = [ZeroWeightBin()]
-    B, P = (1, 3) if tier == "quick" else (2, 3)
+    B, P = (1, 3) if tier == "quick" else (3, 5)
     for s in SUBSETS:
         for auto in (False, True):
             hs.append(Estimator(s, auto, B, P))
@@ -276,7 +276,7 @@ def harnesses(tier):
     if tier == "thorough":
         hs.append(AutoNorm(1, 5))
     for ref, unk in ((False, False), (True, False), (False, True), (True, True)):
-        hs.append(NzFormula(2 if tier == "quick" else 3, 2, ref, unk))
+        hs.append(NzFormula(2 if tier == "quick" else 3, 2 if tier == "quick" else 3, ref, unk))
     hs.append(NzFormula(1, 1, True, False, wrong="dz"))
     for cls in (HistData, RedshiftData):
         hs.append(Normalised(cls, 2, 2))
